@@ -1715,10 +1715,24 @@ method or constructor of some type."""
             self._pass3_callable_throws(node)
             self._pass3_callable_async_finish(node)
             self._pass3_callable_async_sync(node)
+            self._pass3_callable_property_accessors(node)
         elif isinstance(node, (ast.Class, ast.Interface)):
             self._pass3_class_async_finish(node)
             self._pass3_class_async_sync(node)
         return True
+
+    def _pass3_callable_property_accessors(self, node):
+        # (set-property) and (get-property) only apply to methods
+        if not isinstance(node, ast.Function) or node.is_method:
+            return
+        if node.set_property is not None:
+            message.warn_node(node,
+                '%s: "%s" annotation only applies to methods' % (node.symbol, ANN_SET_PROPERTY))
+            node.set_property = None
+        if node.get_property is not None:
+            message.warn_node(node,
+                '%s: "%s" annotation only applies to methods' % (node.symbol, ANN_GET_PROPERTY))
+            node.get_property = None
 
     def _pass3_class_async_finish(self, node):
         self._match_class_async_methods(node.methods)
